@@ -29,6 +29,7 @@ func escapeFree(s string) bool {
 }
 
 func textParse(kind, s string) string {
+	s0 := ""
 	return guard(func() string {
 		switch kind {
 		case "date-parse":
@@ -93,6 +94,30 @@ func textParse(kind, s string) string {
 			}
 			tt := time.Time(*t)
 			return fmt.Sprintf("ok %d-%d-%d", tt.Hour(), tt.Minute(), tt.Second())
+		case "weekdays-json":
+			for _, fresh := range []bool{true, false} { // a nil map and a pre-filled one must give the same answer
+				var w types.Weekdays
+				if !fresh {
+					w = types.Weekdays{time.Monday: true, time.Sunday: true, time.Wednesday: false}
+				}
+				if err := json.Unmarshal(quote(s), &w); err != nil {
+					return "err"
+				}
+				bits := ""
+				for _, d := range []time.Weekday{time.Monday, time.Tuesday, time.Wednesday, time.Thursday, time.Friday, time.Saturday, time.Sunday} {
+					if w[d] {
+						bits += "1"
+					} else {
+						bits += "0"
+					}
+				}
+				if fresh {
+					s0 = bits
+				} else if bits != s0 {
+					return "differs-by-target " + s0 + " " + bits
+				}
+			}
+			return "ok " + s0
 		case "cardformat-parse":
 			f, err := types.CardFormatFromString(s)
 			if err != nil {
@@ -285,6 +310,39 @@ func streamText(c *ctx) {
 	for i := 0; i < 200*c.scale; i++ {
 		emit("cardformat-parse", mutateText(rng.Pick(r, "any", "Wiegand-26", "wiegand 26", "wiegand26")), "cardformat/mutated")
 	}
+	// --- weekdays: every one of the 128 sets in canonical form, other spellings, mutations
+	dayNames := []string{"Monday", "Tuesday", "Wednesday", "Thursday", "Friday", "Saturday", "Sunday"}
+	for set := 0; set < 128; set++ {
+		names := []string{}
+		for i, n := range dayNames {
+			if set&(1<<i) != 0 {
+				names = append(names, n)
+			}
+		}
+		canon := strings.Join(names, ",")
+		emit("weekdays-json", canon, "weekdays/canonical")
+		bits := ""
+		wd := types.Weekdays{}
+		for i := range dayNames {
+			if set&(1<<i) != 0 {
+				bits += "1"
+				wd[[]time.Weekday{time.Monday, time.Tuesday, time.Wednesday, time.Thursday, time.Friday, time.Saturday, time.Sunday}[i]] = true
+			} else {
+				bits += "0"
+			}
+		}
+		w.Emit("fmt weekdays-json "+bits, guard(func() string { return inner(json.Marshal(wd)) }), "fmt/weekdays-json")
+		w.Emit("fmt weekdays-string "+bits, "text "+cases.Hex([]byte(wd.String())), "fmt/weekdays-string")
+		if set%8 == 5 {
+			emit("weekdays-json", strings.ToUpper(canon), "weekdays/upper")
+			emit("weekdays-json", strings.ReplaceAll(canon, ",", ", "), "weekdays/spaced")
+			emit("weekdays-json", mutateText(canon), "weekdays/mutated")
+			emit("weekdays-json", canon+","+canon, "weekdays/repeated")
+		}
+	}
+	for _, s := range []string{"", ",", "Mon", "monday", "MONDAY,tuesday", "Monday,,Sunday", "Sunday,Monday", "Mondayx", "xMonday", "Thurs", "Mon,Tue"} {
+		emit("weekdays-json", s, "weekdays/edge")
+	}
 
 	// --- formatting: String() / MarshalJSON of in-domain values
 	emitFmt := func(kind, valTok, out string) {
@@ -358,6 +416,20 @@ func streamText(c *ctx) {
 				a.Doors[1] == b.Doors[1] && a.Doors[2] == b.Doors[2] && a.Doors[3] == b.Doors[3] && a.Doors[4] == b.Doors[4]
 		}))
 		prof := types.TimeProfile{ID: r.U8(), LinkedProfileID: r.U8(), From: card.From, To: card.To, Weekdays: wd, Segments: segs}
+		// every third profile has only its first k segments (k = 0..2): decoding fills the rest with 00:00-00:00,
+		// and nothing of an earlier decode may show through
+		if i%3 == 2 {
+			k := r.Intn(3)
+			short := types.Segments{}
+			for id := uint8(1); int(id) <= k; id++ {
+				short[id] = segs[id]
+			}
+			prof.Segments = short
+			if k == 0 && r.Bool() {
+				prof.Segments = nil
+			}
+			sd = append(sd[:k:k], "short")
+		}
 		emitRT("timeprofile", fmt.Sprintf("%d,%d,%s,%s", prof.ID, prof.LinkedProfileID, strings.Join(wt, ""), strings.Join(sd, ",")), rt(prof, func(a, b types.TimeProfile) bool {
 			return a.ID == b.ID && a.LinkedProfileID == b.LinkedProfileID && dateEq(a.From, b.From) && dateEq(a.To, b.To) && weekdaysEq(a.Weekdays, b.Weekdays) && segmentsEq(a.Segments, b.Segments)
 		}))
@@ -392,6 +464,29 @@ func streamText(c *ctx) {
 			emitRT("datetime", fmt.Sprintf("%s,%d", name, t.Unix()), rt(dtv, func(a, b types.DateTime) bool { return time.Time(a).Equal(time.Time(b)) }))
 			dv := types.ToDate(y, time.Month(m), d)
 			emitRT("date", fmt.Sprintf("%s,%d-%d-%d", name, y, m, d), rt(dv, dateEq))
+		}
+		// instants on both sides of every offset change 2015..2030 whose two sides have different zone
+		// abbreviations (so that the text identifies the instant even inside a repeated hour)
+		for probe := time.Date(2015, 1, 1, 0, 0, 0, 0, time.UTC); probe.Year() <= 2030; {
+			_, end := probe.In(loc).ZoneBounds()
+			if end.IsZero() {
+				break
+			}
+			before, _ := end.Add(-time.Second).In(loc).Zone()
+			after, _ := end.In(loc).Zone()
+			if before != after {
+				for _, off := range []time.Duration{-61 * time.Minute, -59 * time.Minute, -30 * time.Minute, -time.Second, 0, time.Second, 30 * time.Minute, 59 * time.Minute, 61 * time.Minute} {
+					t := end.Add(off).In(loc)
+					emitRT("datetime", fmt.Sprintf("%s,%d", name, t.Unix()), rt(types.DateTime(t), func(a, b types.DateTime) bool { return time.Time(a).Equal(time.Time(b)) }))
+				}
+			}
+			probe = end.Add(24 * time.Hour)
+			if c.tier != "thorough" && probe.Year() > 2024 {
+				break
+			}
+			if c.tier != "thorough" && probe.Year() < 2021 {
+				probe = time.Date(2021, 1, 1, 0, 0, 0, 0, time.UTC)
+			}
 		}
 		var zdt types.DateTime
 		emitRT("datetime", name+",zero", rt(zdt, func(a, b types.DateTime) bool { return a.IsZero() && b.IsZero() }))
